@@ -159,7 +159,10 @@ namespace CDNS {
          * @param out New output to open (file name[std::string] or file descriptor[int])
          * @param export_current_block If `true` currently internally buffered Block will be exported
          * before current output is closed
-         * @throw CborOutputException if output rotation fails
+         * @throw CborOutputException if output rotation fails. If the new output could be opened, it's in use
+         * even after this exception is thrown, which then reports that the closed output is missing some data
+         * (this is reported only once for each output, i.e. not if some write to that output has already thrown
+         * an exception).
          * @return Number of uncompressed bytes written to close current output, 0 if closing empty output
          */
         template<typename T>
@@ -168,11 +171,25 @@ namespace CDNS {
             if (export_current_block)
                 written += write_block();
 
-            if (m_blocks_written > 0)
-                written += m_encoder.write_break();
+            bool report_failure = false;
+            if (m_blocks_written > 0) {
+                bool reported = m_encoder.write_failed();
+                try {
+                    written += m_encoder.write_break();
+                }
+                catch (CborOutputException& e) {
+                    // Current output gets closed anyway
+                    report_failure = !reported;
+                }
+            }
 
-            m_encoder.rotate_output(out);
+            // Current output is closed (and thus next Block has to start a new C-DNS file) even if the rotation throws
             m_blocks_written = 0;
+            m_encoder.rotate_output(out);
+
+            if (report_failure)
+                throw CborOutputException("Couldn't write the end of C-DNS data to the closed output!");
+
             return written;
         }
 
